@@ -142,6 +142,20 @@ CHECKS = {
         note='Numeric aggregates compared as exact rationals (a double stands for the small-denominator rational it rounds). The >10240-key on-disk index is not yet driven (planned for the thorough tier).',
         technique='TLA+ declarative vs streaming join model checked with TLC; every exported case replayed on the real join; recorded random joins judged by the TLA+ definition',
         design='6/C11', specs=['ProcJoin.tla', 'JoinTrace.tla']),
+    'C12': dict(
+        level='model_checking',
+        text='ProcSort.tla puts the ideal (stable ascending sort; reverse = exact reverse) next to the implemented key design (key text + '
+             '8 hex digits of the row number, lexicographic; numbers via an order-preserving encoding of IEEE bits, modelled on a miniature '
+             'float format with denormals and two zeros). TLC decides the design exhaustively: on all 81 400 tables of <=3 keys of <=2 '
+             'characters over six character classes straddling the hex digits the design equals the ideal EXCEPT with a proper-prefix '
+             'key pair; the numeric encoding preserves order and equality EXCEPT for -0.0. Every exported text table (quick: a seeded 8%) '
+             'is sorted for real with key as format string / field list / callable, reverse, batch sizes 1/2/1000; a mismatch is accepted '
+             'only if it is exactly the listed deviation (trigger predicate + ImplSort prediction). 360/5400 seeded numeric, unicode-text and '
+             'multi-field tables (ints, floats to 1e300, Decimals, negatives) and tables of 2 500 (thorough 12 000 / 30 000, beyond the '
+             '10 240-entry cache) rows are rank-abstracted with exact arithmetic and TLC checks permutation, order, stability and exact reversal.',
+        note='Three known findings (text key prefix pairs, -0.0, integers beyond 2^53) are matched by trigger + predicted deviation only. Ranks are computed with Fraction / code points (trusted).',
+        technique='TLA+ ideal-vs-implemented sort key design model-checked exhaustively; exported tables replayed; rank-abstracted real runs validated by a TLC trace spec',
+        design='6/C12', specs=['ProcSort.tla', 'SortTrace.tla']),
 }
 
 NOT_YET = 'check not built yet (build in progress, see DESIGN.md section 10)'
